@@ -27,7 +27,7 @@ EXTREME = [2.0 ** 90, 2.0 ** 110]
 
 def gen_cases(tier, seed):
     rnd = random.Random(f"C19-{seed}")
-    n = 36 if tier == "quick" else 400
+    n = 36 if tier == "quick" else 280
     cases = []
     for i in range(n):
         d = gs.gen_spec(rnd, rnd.choice(["mm1", "mm1", "mv1", "chain2", "fanin2", "mvchain2"]), levels=rnd.choice([2, 2, 3]))
